@@ -163,9 +163,12 @@ static void drv_reset(void)
 		own[fd] = 0;
 	}
 	drop_tmpdir();
-	snprintf(dir, sizeof(dir), "/verif/_work/X26/d%d-%ld", (int) getpid(), drv_beh);
-	mkdir("/verif/_work/X26", 0755);
-	mkdir(dir, 0700);
+	{
+		const char *top = getenv("X26_DIR");
+		if (!top) { top = "/verif/_work/X26"; mkdir(top, 0755); }
+		snprintf(dir, sizeof(dir), "%s/d%d-%ld", top, (int) getpid(), drv_beh);
+		mkdir(dir, 0700);
+	}
 	no = fresh;
 	bound._id = -1;
 	memset(tab, 0, sizeof(tab));
@@ -267,25 +270,27 @@ static int client_of(int fd)
 	for (k = 0; k < ncli; k++) if (cli[k].fd >= 0 && !strcmp(cli[k].path, addr.sun_path)) return k;
 	return -1;
 }
-/* inputs the notifier holds that the driver does not know: accepted connections; tokens in the order of their listeners */
+/* inputs the notifier holds that the driver does not know: accepted connections; tokens in the order of their
+ * listeners, then in the order the clients connected */
 static void adopt_accepted(int kind)
 {
-	int n, k, l;
+	int n, k, l, c;
 	MPT_INTERFACE(input) **p;
 	for (l = 0; l <= nin; l++) {
-		p = slots(&n);
-		for (k = 0; k < n; k++) {
-			int c;
-			if (!p[k] || tok_of(p[k]) > 0) continue;
-			if ((c = client_of(k)) < 0 || cli[c].l != l) continue;
-			if (nin >= MAXTOK) return;
-			{
-				struct slot *s = &tab[nin + 1];
+		for (c = 0; c < ncli; c++) {
+			if (cli[c].fd < 0 || cli[c].l != l) continue;
+			p = slots(&n);
+			for (k = 0; k < n; k++) {
+				struct slot *s;
+				if (!p[k] || tok_of(p[k]) > 0 || client_of(k) != c) continue;
+				if (nin >= MAXTOK) return;
+				s = &tab[nin + 1];
 				memset(s, 0, sizeof(*s));
 				s->kind = kind; s->fd = k; s->ino = ino_of(k); s->in = p[k]; s->peer = cli[c].fd;
 				s->ps = peer_stream(cli[c].fd);
 				cli[c].fd = -1;
 				nin++;
+				break;
 			}
 		}
 	}
@@ -404,18 +409,29 @@ static void drv_step(struct cmd *c)
 	}
 	else if (!strcmp(a, "wait")) {
 		MPT_INTERFACE(input) *in;
-		int r = mpt_notify_wait(&no, -1, 0), guard = 0;
-		adopt_accepted('n');
-		while ((in = mpt_notify_next(&no)) && guard++ < 64) {
-			int k;
-			curtok = tok_of(in);
-			for (k = 0; k < 16; k++) {
-				int before = hcalled, d;
-				d = in->_vptr->dispatch(in, handler, 0);
-				if (d < 0 || hcalled == before) break;
+		int r = 0, round, n0, k;
+		/* rounds of wait / next / dispatch until one finds nothing to do (how much an input reads in one go and
+		 * how many connections a listener takes per call is the library's business) */
+		for (round = 0; round < 24; round++) {
+			int calls = hcalled, cl = ncloses, guard = 0, used = no._fdused;
+			MPT_INTERFACE(input) **p = slots(&n0);
+			int known = 0;
+			for (k = 0; k < n0; k++) if (p[k]) known++;
+			r = mpt_notify_wait(&no, -1, 0);
+			while ((in = mpt_notify_next(&no)) && guard++ < 64) {
+				curtok = tok_of(in);
+				for (k = 0; k < 16; k++) {
+					int before = hcalled, d;
+					d = in->_vptr->dispatch(in, handler, 0);
+					if (d < 0 || hcalled == before) break;
+				}
 			}
+			curtok = 0;
+			p = slots(&n0);
+			for (k = 0; k < n0; k++) if (p[k]) known--;
+			if (calls == hcalled && cl == ncloses && used == no._fdused && !known) break;
 		}
-		curtok = 0;
+		adopt_accepted('n');
 		emit(c, r < 0 ? "refused" : "ok", r);
 	}
 	else if (!strcmp(a, "remove")) {
